@@ -342,7 +342,11 @@ def r5(ctx):
         ok = ok and any(t in ("snet in self.adapters", "%s.npduSADR.addrNet in self.adapters" % np) and not pol for t, pol in at)
     ctx.check("NSAP.process_npdu:learns-from-sadr", ok, where(m, p), "a routed packet teaches (arrival network, link source) -> [SNET], unless SNET is a directly attached network")
     if len(cs) == 1:
-        stale = [repr(z) for z in facts_at(cs[0]) if "router_info_cache" in norm(z.test) or "get_router_info" in norm(z.test) or "path_info" in norm(z.test)]
+        # nothing but "there is a source address" and "its network is not directly attached" may stand between a routed
+        # packet and the update: any other condition (what the cache says, what was seen last, a counter) makes knowledge
+        # that was changed in between - by an I-Am-Router, a deletion, a renumbering - survive the traffic that contradicts it
+        stale = [repr(z) for z in facts_at(cs[0]) if z.origin != "loop" and not any(k_ in norm(z.test) for k_ in ("npduSADR", "in self.adapters", "self.adapters"))
+                 or "router_info_cache" in norm(z.test) or "get_router_info" in norm(z.test) or "path_info" in norm(z.test)]
         ctx.check("NSAP.process_npdu:relearns-every-time", not stale, where(m, cs[0]),
                   "the return path is learned only when the cache says %s: an entry that is wrong (or was poisoned) is then never corrected by the traffic that proves it wrong" % stale)
     # NetworkNumberIs renumbers the cache before the adapter map
